@@ -656,6 +656,12 @@ class Interp:
         size = hi - lo + 1
         if c is not None:
             return zint(((c - lo) % size) + lo)
+        # context-aware: when the current path condition already excludes leaving the range (the usual case: the value
+        # came from a narrower type or was range-checked before), keep the plain term -- wrap-around ites over
+        # non-linear terms are what makes the final queries hard
+        p = getattr(self, "_cur_path", None)
+        if p is not None and not self.feasible(p, z3.Or(term < lo, term > hi)):
+            return term
         return z3.If(z3.And(term >= lo, term <= hi), term, ((term - lo) % size) + lo)
 
     @staticmethod
@@ -668,6 +674,15 @@ class Interp:
             q = abs(ca) // abs(cb)
             return zint(q if (ca >= 0) == (cb >= 0) else -q)
         if cb is not None:
+            # (k * x) / c with c | k is exactly (k / c) * x: spares the solver a non-linear division (products of a
+            # symbolic amount with `Decimal::from(integer)` = integer * 10^18, divided by 10^18 again)
+            sa = z3.simplify(a)
+            if z3.is_mul(sa) and sa.num_args() >= 2 and z3.is_int_value(sa.arg(0)) and cb != 0 \
+                    and sa.arg(0).as_long() % cb == 0:
+                rest = sa.arg(1)
+                for i in range(2, sa.num_args()):
+                    rest = rest * sa.arg(i)
+                return zint(sa.arg(0).as_long() // cb) * rest
             if cb > 0:
                 return z3.If(a >= 0, a / cb, -((-a) / cb))
             return z3.If(a >= 0, -(a / (-cb)), (-a) / (-cb))
@@ -1166,6 +1181,7 @@ class Interp:
             cargs = list(tup.fields) if tup.kind == "struct" else []
             return self.call_value(path, args[0], cargs, dest_ty)
         self.stats["model_calls"][callee] = self.stats["model_calls"].get(callee, 0) + 1
+        self._cur_path = path
         r = target(self, path, args, norm_ty(dest_ty) if dest_ty else None, callee)
         if isinstance(r, V):
             return [Outcome(path, "ret", r)]
@@ -1213,6 +1229,7 @@ class Interp:
 
     # ------------------------------------------------------------------ statements
     def exec_stmt(self, path, fid, f, st):
+        self._cur_path = path
         if st.startswith(("StorageLive", "StorageDead", "ConstEvalCounter", "nop", "FakeRead", "AscribeUserType",
                           "PlaceMention", "Retag", "Coverage", "BackwardIncompatibleDropHint")):
             return
